@@ -105,6 +105,28 @@ def r1(ctx):
     ctx.expect("C13.R1", "reader table entries", len(readers), 15)
     want_types = {"bool", "int", "float", "str", "bytes", "type(None)", "dict", "tuple", "list", "set"}
     ctx.check(set(writers) == want_types, "C13.R1", "%s:serialize_value" % M, "writer table covers exactly the supported builtin types", witness=sorted(writers))
+    # scalar writers pack the value they were given: the payload argument of every pack is the parameter itself, never rebound
+    # (a clamp, rounding or default in front of the pack changes what decode(encode(v)) returns without any error)
+    for tname in ("bool", "int", "float"):
+        fname = writers.get(tname)
+        if fname is None or ("%s:%s" % (M, fname)) not in ctx.repo.funcs:
+            continue
+        wf = ctx.fn("%s:%s" % (M, fname))
+        vp_ = wf.params[1] if len(wf.params) > 1 else None
+        wdu = defuse_of(wf)
+        sites = [s_ for s_ in struct_sites(wf, ctx.folder) if s_.kind == "pack" and len(s_.args) == 2]
+        ok = bool(sites) and vp_ is not None
+        wit = []
+        for s_ in sites:
+            a_ = s_.args[1]
+            node = wdu.cfg.node_of(s_.call)
+            defs = wdu.reaching(a_.id, node.id) if isinstance(a_, ast.Name) and node is not None else None
+            good = isinstance(a_, ast.Name) and a_.id == vp_ and defs is not None and all(d[0] == "ENTRY" for d in defs)
+            if not good:
+                wit.append({"packed": norm(a_), "definitions": [norm(d[1]) if isinstance(d[1], ast.AST) else str(d[0]) for d in (defs or [])][:3]})
+            ok = ok and good
+        ctx.check(ok, "C13.R1", wf, "%s packs the value it was given (the parameter itself, never rebound)" % fname,
+                  "what is written is the value, not a clamped, rounded or replaced one", witness=wit[:2])
     prim = 0
     emitted = {}
     for tname, fname in sorted(writers.items()):
